@@ -505,7 +505,9 @@ theorem flag_refRow (cfg : Cfg) (s : State) (T : Cls) (r : Id) (hr : Hnd) (fresh
           · exact flag_destroy _ _ _ h1
           · have h2 := flag_read cfg r1.1 hr 0 h1
             split
-            · exact flag_set _ _ _ _ _ h2
+            · split
+              · exact flag_syncUpdate _ _ _ _ (flag_set _ _ _ _ _ h2)
+              · exact flag_set _ _ _ _ _ h2
             · exact h2
 
 theorem flag_refSteps (cfg : Cfg) (s : State) (T : Cls) (r : Id) (refs : List RefStep) (hf : AllFlag cfg s) :
@@ -1124,6 +1126,26 @@ theorem live_read (cfg : Cfg) (s : State) (hr : Hnd) (c : Col) (hl : LiveTarget 
         · exact hl
         · split <;> (intro o' ho'; exact hl o' (by simpa [logStmt] using ho'))
 
+theorem live_set (cfg : Cfg) (s : State) (hr : Hnd) (kvs : List (Col × Inp)) (fail : Bool) (hl : LiveTarget s hr) :
+    LiveTarget (opSet cfg s hr kvs fail).1 hr := by
+  unfold opSet
+  split
+  · exact hl
+  · rename_i o ho
+    split
+    · exact hl
+    · split
+      · exact hl
+      · split
+        · intro o' ho'; simp [setObj] at ho'; subst ho'; exact hl o ho
+        · split
+          · exact hl
+          · split
+            · intro o' ho'; exact hl o' (by simpa [sendUpdate] using ho')
+            · split
+              · intro o' ho'; simp [setObj] at ho'; subst ho'; exact hl o ho
+              · intro o' ho'; exact hl o' (by simpa [sendUpdate] using ho')
+
 theorem inv_refRow (cfg : Cfg) (s : State) (T : Cls) (r : Id) (hr : Hnd) (fresh : Option (Cls × Id))
     (hinv : OrmValInv cfg s) (hfresh : FreshOk s fresh) (hlive : LiveTarget s hr) :
     OrmValInv cfg (opRefRow cfg s T r hr fresh).1 := by
@@ -1149,7 +1171,9 @@ theorem inv_refRow (cfg : Cfg) (s : State) (T : Cls) (r : Id) (hr : Hnd) (fresh 
           · have h2 := inv_read cfg r1.1 hr 0 h1
             have hl2 := live_read cfg r1.1 hr 0 hl1
             split
-            · exact inv_set _ _ _ _ _ h2 hl2
+            · split
+              · exact inv_syncUpdate _ _ _ _ (inv_set _ _ _ _ _ h2 hl2) (live_set _ _ _ _ _ hl2)
+              · exact inv_set _ _ _ _ _ h2 hl2
             · exact h2
 
 theorem inv_refSteps (cfg : Cfg) (s : State) (T : Cls) (r : Id) (refs : List RefStep)
@@ -1271,5 +1295,132 @@ theorem plookup_foldl_passign (as : List (Col × Val)) (p0 : Pend) (c : Col) :
       by_cases hc : c = c'
       · subst hc; simp [plookup_passign_same]
       · simp [hc, plookup_passign_ne _ _ _ _ hc]
+
+/-! ### which operations send an UPDATE of a lazy class -/
+
+
+/-- an UPDATE of a row of a lazy class -/
+def lazyUpd (cfg : Cfg) : Stmt → Bool
+  | .update c _ _ => cfg.lazyUpdate c
+  | _ => false
+
+/-- going from `s` to `s'` only appended statements, none of them an UPDATE of a lazy class -/
+def NoLazyWrite (cfg : Cfg) (s s' : State) : Prop :=
+  ∃ l, s'.log = s.log ++ l ∧ ∀ st ∈ l, lazyUpd cfg st = false
+
+/-- the operations that write pending values of lazy objects -/
+def IsFlushOp : Op → Bool
+  | .syncUpdate .. => true
+  | .sync .. => true
+  | .pickle .. => true
+  | .destroy _ refs => !refs.isEmpty
+  | _ => false
+
+theorem nlw_refl (cfg : Cfg) (s : State) : NoLazyWrite cfg s s := ⟨[], by simp, by simp⟩
+
+theorem nlw_log_eq (cfg : Cfg) (s s' : State) (h : s'.log = s.log) : NoLazyWrite cfg s s' := ⟨[], by simp [h], by simp⟩
+
+theorem nlw_one (cfg : Cfg) (s s' : State) (st : Stmt) (h : s'.log = s.log ++ [st]) (hs : lazyUpd cfg st = false) :
+    NoLazyWrite cfg s s' := ⟨[st], h, by simp [hs]⟩
+
+theorem nlw_upd (cfg : Cfg) (s s' : State) (c : Cls) (i : Id) (p : Pend) (h : s'.log = s.log ++ [.update c i p])
+    (hc : ¬ cfg.lazyUpdate c = true) : NoLazyWrite cfg s s' :=
+  ⟨[.update c i p], h, by simpa [lazyUpd] using hc⟩
+
+theorem nlw_setattr (cfg : Cfg) (s : State) (h : Hnd) (c : Col) (inp : Inp) (fail : Bool) :
+    NoLazyWrite cfg s (opSetattr cfg s h c inp fail).1 := by
+  unfold opSetattr
+  split
+  · exact nlw_refl _ _
+  · split
+    · exact nlw_refl _ _
+    · split
+      · exact nlw_refl _ _
+      · split
+        · exact nlw_log_eq _ _ _ rfl
+        · rename_i hlz
+          split
+          · exact nlw_upd _ _ _ _ _ _ rfl hlz
+          · split
+            · exact nlw_upd _ _ _ _ _ _ rfl hlz
+            · exact nlw_upd _ _ _ _ _ _ rfl hlz
+
+theorem nlw_set (cfg : Cfg) (s : State) (h : Hnd) (kvs : List (Col × Inp)) (fail : Bool) :
+    NoLazyWrite cfg s (opSet cfg s h kvs fail).1 := by
+  unfold opSet
+  split
+  · exact nlw_refl _ _
+  · split
+    · exact nlw_refl _ _
+    · split
+      · exact nlw_refl _ _
+      · split
+        · exact nlw_log_eq _ _ _ rfl
+        · rename_i hlz
+          split
+          · exact nlw_refl _ _
+          · split
+            · exact nlw_upd _ _ _ _ _ _ rfl hlz
+            · split
+              · exact nlw_upd _ _ _ _ _ _ rfl hlz
+              · exact nlw_upd _ _ _ _ _ _ rfl hlz
+
+theorem nlw_read (cfg : Cfg) (s : State) (h : Hnd) (c : Col) : NoLazyWrite cfg s (opRead cfg s h c).1 := by
+  unfold opRead
+  split
+  · exact nlw_refl _ _
+  · split
+    · exact nlw_refl _ _
+    · split
+      · split
+        · exact nlw_refl _ _
+        · split <;> exact nlw_one _ _ _ _ rfl rfl
+      · split
+        · exact nlw_refl _ _
+        · split <;> exact nlw_one _ _ _ _ rfl rfl
+
+theorem nlw_create (cfg : Cfg) (s : State) (h : Hnd) (cls : Cls) (id : Id) (kvs : List (Col × Inp)) :
+    NoLazyWrite cfg s (opCreate cfg s h cls id kvs).1 := by
+  unfold opCreate
+  split
+  · exact nlw_refl _ _
+  · split
+    · exact nlw_refl _ _
+    · split
+      · exact nlw_refl _ _
+      · dsimp only
+        split
+        · exact nlw_one _ _ _ _ rfl rfl
+        · refine ⟨[Stmt.insert cls id ((List.range (cfg.ncols cls)).map fun c => (c, applyUpd (fun _ => none) ‹Pend› c)), Stmt.selectRow cls id], by simp [register, logStmt], by simp [lazyUpd]⟩
+
+theorem nlw_fetch (cfg : Cfg) (s : State) (h : Hnd) (cls : Cls) (id : Id) (v : Bool) :
+    NoLazyWrite cfg s (opFetch cfg s h cls id v).1 := by
+  have h1 : NoLazyWrite cfg s (fetchLog s v cls id) := by
+    unfold fetchLog; split
+    · exact nlw_refl _ _
+    · exact nlw_one _ _ _ _ rfl rfl
+  unfold opFetch
+  split
+  · exact nlw_refl _ _
+  · dsimp only
+    split
+    · exact h1
+    · obtain ⟨l, hl, hl2⟩ := h1; exact ⟨l, by simpa [register] using hl, hl2⟩
+
+theorem nlw_refresh (cfg : Cfg) (s : State) (h : Hnd) : NoLazyWrite cfg s (opRefresh cfg s h).1 := by
+  unfold opRefresh
+  split
+  · exact nlw_refl _ _
+  · split
+    · exact nlw_refl _ _
+    · split
+      · exact nlw_refl _ _
+      · exact nlw_log_eq _ _ _ rfl
+
+theorem nlw_destroy (cfg : Cfg) (s : State) (h : Hnd) : NoLazyWrite cfg s (opDestroy s h).1 := by
+  unfold opDestroy
+  split
+  · exact nlw_refl _ _
+  · exact nlw_one _ _ _ _ rfl rfl
 
 end SqlObjVerif.OrmVal
